@@ -89,6 +89,27 @@ def gen_case(rng):
     elif k < 0.6:     # constant free, no powers
         s = c01.gen_stack(rng, rng.randint(2, 12), D, 0, [2, 3, 4, 5, 6, 7, 8, 9, 11, 12, 14, 15, 2, 3, 4], int_values=(0, 1, 2, 3, -1, -2))
         kind = "nopow"
+    elif k < 0.66:    # a constant power of a power with a non-constant exponent, and of a product of three or more factors
+        # ((u^v)^k -> u^(v*k);  (a*b*c)^k -> a^k*b^k*c^k: branches of _simplify_constant_power / _simplify_product_rec that random
+        # stacks over all operators reach too rarely - anchored-code coverage showed them never executed in a quick run)
+        s = [[0, i % D, i % D] for i in range(3)] + [[-1, 1, 1], [6, 0, 0], [8, 1, 1], [2, 0, 3]]   # X.., 1, sin, exp, X0+1
+        atoms = [0, 1, 2, 4, 5, 6]
+        kk = rng.choice([2, 3, -1, -2, 2, 4])
+        if rng.random() < 0.5:
+            u, v = rng.choice(atoms), rng.choice([1, 2, 4, 6, 5])
+            s.append([rng.choice([10, 13, 10]), u, v])
+            base = len(s) - 1
+        else:
+            a, b, c = rng.sample(atoms, 3)
+            s += [[4, a, b], [4, len(s), c]]
+            base = len(s) - 1
+            if rng.random() < 0.4:
+                s.append([4, base, rng.choice(atoms)])
+                base = len(s) - 1
+        s += [[-1, kk, kk], [rng.choice([10, 10, 13]), base, len(s)]]
+        if rng.random() < 0.4:
+            s.append([rng.choice([2, 4, 3]), len(s) - 1, rng.choice(atoms)])
+        kind = "all"
     elif k < 0.8:     # constant free, all operators
         s = c01.gen_stack(rng, rng.randint(2, 12), D, 0, ALL_OPS, int_values=(0, 1, 2, 3, -1, -2))
         kind = "all"
